@@ -73,11 +73,11 @@ example : ∃ items, canonLoop false [.int 1, .slice ⟨none, none, some (-1)⟩
 /-! ### reshape -/
 
 /-- A reshaped proxy reads the SAME stored elements in the same (storage) order with the same
-    offset, item size, slope and intercept: `np.asarray(proxy.reshape(s))` enumerates exactly what
-    `np.asarray(proxy)` enumerates; only the shape differs (and has the same number of elements). -/
+    offset, item size, memory order, slope and intercept: `np.asarray(proxy.reshape(s))` enumerates
+    exactly what `np.asarray(proxy)` enumerates; only the shape differs (same number of elements). -/
 theorem reshape_same_elements {σ ρ β} (f : ρ → σ → σ → β) (raw : Int → ρ) (h : Heuristic)
-    (dflt : Order) (p p' : Params σ) (shape : List Int) (hr : reshape dflt p shape = .ok p') :
-    p'.shape.prod = p.shape.prod ∧ p'.off = p.off ∧ p'.isz = p.isz ∧
+    (p p' : Params σ) (shape : List Int) (hr : reshape p shape = .ok p') :
+    p'.shape.prod = p.shape.prod ∧ p'.off = p.off ∧ p'.isz = p.isz ∧ p'.order = p.order ∧
     (proxyArray f raw h p').map (·.2) = (proxyArray f raw h p).map (·.2) := by
   unfold reshape at hr
   cases hs : reshapeShape p.shape.prod shape with
@@ -86,12 +86,23 @@ theorem reshape_same_elements {σ ρ β} (f : ρ → σ → σ → β) (raw : In
       simp only [hs, bind, Except.bind, pure, Except.pure, Except.ok.injEq] at hr
       subst hr
       have hp := reshapeShape_prod hs
-      refine ⟨hp, rfl, rfl, ?_⟩
+      refine ⟨hp, rfl, rfl, rfl, ?_⟩
       rw [proxyArray_eq, proxyArray_eq]
       simp [Except.map, hp, scaledElem]
 
-example : reshape .F (⟨[1, 1, 1, 1, 2, 3], 2, 544, .F, 2, 1⟩ : Params Int) [-1, 3] =
+example : reshape (⟨[1, 1, 1, 1, 2, 3], 2, 544, .F, 2, 1⟩ : Params Int) [-1, 3] =
     .ok ⟨[2, 3], 2, 544, .F, 2, 1⟩ := by decide
+
+/-- The pinned `reshape` dropped the memory order: a C-order `(2, 3)` proxy reshaped to `(3, 2)`
+    came back as an F-order proxy, so its first row `[0]` showed stored elements 0 and 3 instead of
+    0 and 1 (the repaired code keeps C order). `copy()` had the same defect. -/
+theorem reshape_orig_counterexample :
+    (reshapeOrig .F (⟨[2, 3], 2, 0, .C, (), ()⟩ : Params Unit) [3, 2]).toOption.map
+        (fun p' => getUnscaled (thresholdHeuristic 256) p' [.int 0]) = some (.ok ([2], [0, 3])) ∧
+    (reshape (⟨[2, 3], 2, 0, .C, (), ()⟩ : Params Unit) [3, 2]).toOption.map
+        (fun p' => getUnscaled (thresholdHeuristic 256) p' [.int 0]) = some (.ok ([2], [0, 1])) ∧
+    (copyOrig .F (⟨[2, 3], 2, 0, .C, (), ()⟩ : Params Unit)).order ≠ Order.C := by
+  decide
 
 /-! ### frozen parameters -/
 
@@ -223,5 +234,17 @@ theorem ecat_frames_orig_reversed_counterexample :
       .ok ([1, 1, 1, 3], [some 0, some 1, some 2]) ∧
     npIndex [.ellipsis, .slice ⟨none, none, some (-1)⟩] [1, 1, 1, 3] .F = .ok ([1, 1, 1, 3], [2, 1, 0]) := by
   decide
+
+/-! ### MINC — not proved (full statement kept)
+
+  `minc_scale_alongside` (NOT PROVED; validated by the correspondence run only):
+    ∀ nscales ∈ {1, 2}, shape (C order), idx with valid slices, r, s:
+      npIndex idx shape .C = .ok r → mincScaleSlots nscales shape idx = .ok s →
+      s.1 = r.1 ∧ s.2 = r.2.map (· / (shape.drop nscales).prod)
+  i.e. `_normalize` pairs every output voxel with the `image-min`/`image-max` entry of the leading
+  (slice / frame,slice) index of its SOURCE voxel.  `mincScaleSlots` is an executable model of
+  minc1.py:191-210; the driver's output is compared with the real code on every MINC1/MINC2 case
+  (streams `minc1`, `minc2`, `minc*-scalar`), and the harness's value look-up identifies the entry
+  actually used by the library.  Missing: the C-order (`orient .C`) analogue of `gatherF_snoc`. -/
 
 end Nb.C03
